@@ -43,11 +43,13 @@ func genProcCase(rng *hx.Rng) *c01Gen {
 	g.retry = 0
 	nact := 0
 	joinAt := -1
+	join2At := -1
 	if g.chain != "" {
 		acts := strings.Split(g.chain, ",")
 		nact = len(acts)
 		for i, a := range acts {
 			if a[0] == 'j' {
+				join2At = joinAt
 				joinAt = i
 			}
 		}
@@ -75,7 +77,7 @@ func genProcCase(rng *hx.Rng) *c01Gen {
 			switch {
 			case rng.Chance(1, 6):
 				v[j] = 'D'
-			case rng.Chance(1, 10) && j != joinAt:
+			case rng.Chance(1, 10) && j != joinAt && j != join2At:
 				v[j] = 'B'
 			}
 		}
@@ -95,7 +97,7 @@ func genProcCase(rng *hx.Rng) *c01Gen {
 		for _, key := range keys {
 			parts := strings.Split(key, " ")
 			src, _ := strconv.Atoi(parts[0])
-			spec := c01Spec(parts[1], pass, []string{"x" + strconv.Itoa(round)})
+			spec := c01Spec(parts[1], pass, []string{"x" + strconv.Itoa(round), "x" + strconv.Itoa(round)})
 			var ks strings.Builder
 			for p, a := range strings.Split(g.chain, ",") {
 				if strings.HasSuffix(a, ":c") {
